@@ -4,7 +4,8 @@
      well-formed arena ([delete_branch_wf]);
    - the builder never writes below the arena it was started on ([build_document_frame], for
      every input on which it returns);
-   - under the builder fact (a premise: [build_document_wf], proved elsewhere) [update_key] keeps
+   - under the builder fact (a premise: [build_document_wf], proved in BuilderWF.v for every block
+     list; HistoryClosed.v puts the two together) [update_key] keeps
      the invariant "wf_b + the keys of the key map are pairwise distinct" ([update_key_wf]), so does
      every history of updates from the empty graph or from an import ([history_wf],
      [history_from_import_wf]);
@@ -545,12 +546,20 @@ Section Frame.
       + (* process_section *)
         intros bs st st' HF H. rewrite process_section_S in H.
         destruct bs as [|h body]; [inversion H; subst; exact HF|].
-        destruct (section_block dir f h st) as [s1|msg] eqn:E1; cbn [bind] in H; [|discriminate].
-        cbv zeta in H.
-        destruct (process_blocks dir f body s1) as [s2|msg] eqn:E2; cbn [bind] in H; [|discriminate].
-        inversion H; subst st'.
-        pose proof (IHsb _ _ _ HF E1) as [Hc1 _]. pose proof (IHb _ _ _ (IHsb _ _ _ HF E1) E2) as [_ Hf2].
-        split; assumption.
+        destruct (starts_with_header (h :: body)).
+        * destruct (section_block dir f h st) as [s1|msg] eqn:E1; cbn [bind] in H; [|discriminate].
+          cbv zeta in H.
+          destruct (process_blocks dir f body s1) as [s2|msg] eqn:E2; cbn [bind] in H; [|discriminate].
+          inversion H; subst st'.
+          pose proof (IHsb _ _ _ HF E1) as [Hc1 _]. pose proof (IHb _ _ _ (IHsb _ _ _ HF E1) E2) as [_ Hf2].
+          split; assumption.
+        * destruct (add_node st (KSection [])) as [s1|msg] eqn:E1; cbn [bind] in H; [|discriminate].
+          cbv zeta in H.
+          destruct (process_blocks dir f (h :: body) s1) as [s2|msg] eqn:E2; cbn [bind] in H; [|discriminate].
+          inversion H; subst st'.
+          pose proof (add_node_Fr _ _ _ HF E1) as HF1.
+          pose proof HF1 as [Hc1 _]. pose proof (IHb _ _ _ HF1 E2) as [_ Hf2].
+          split; assumption.
       + (* section_block *)
         intros b st st' HF H. rewrite section_block_S in H.
         destruct b; try discriminate; try (eapply add_lines_Fr; eauto; fail);
@@ -772,8 +781,6 @@ Qed.
 
 (* ---------- building a note: the key-map side -------------------------------------------------- *)
 
-Definition plain (bs : list dblock) : Prop := Forall (fun b => plain_items b = true) bs.
-
 (* what is asked of the arena and the key map before the note [key] is (re)built on them: every
    other entry names its document, roots and keys are pairwise distinct, and every live document
    is the root of an entry other than [key] (the old version of [key], if any, is gone) *)
@@ -938,7 +945,7 @@ Definition hist_step (acc : res graph) (op : string * option string * list dbloc
 
 Section WithBuilder.
   Hypothesis build_document_wf : forall a key bs,
-    arena_ok a = true -> Forall (fun b => plain_items b = true) bs ->
+    arena_ok a = true ->
     exists st, build_document a key bs = Ok st /\ arena_ok (b_arena st) = true /\
       firstn (length a) (b_arena st) = a /\
       (exists n, get (b_arena st) (length a) = Some n /\ g_kind n = KDocument key /\
@@ -947,12 +954,12 @@ Section WithBuilder.
                     is_emptyk (g_kind n) = false /\ is_dock (g_kind n) = false).
 
   Lemma build_note_inv a keys maps titles metas key meta bs :
-    ready a keys key -> plain bs ->
+    ready a keys key ->
     exists g', build_note (G a keys maps titles metas) key meta bs = Ok g' /\ graph_inv g' /\
                gr_keys g' = ainsert key (length a) keys.
   Proof.
-    intros Hready Hplain. pose proof Hready as (Hok & _).
-    destruct (build_document_wf a key bs Hok Hplain)
+    intros Hready. pose proof Hready as (Hok & _).
+    destruct (build_document_wf a key bs Hok)
       as (st & Hb & Hok' & Hfirst & (n & Hn & Hk & _ & _) & Hlater).
     unfold build_note. cbn [gr_arena gr_keys gr_maps gr_titles gr_meta]. rewrite Hb. cbn [bind].
     eexists. split; [reflexivity|]. split; [|reflexivity]. unfold graph_inv. cbn [gr_arena gr_keys].
@@ -962,73 +969,70 @@ Section WithBuilder.
   Qed.
 
   Lemma from_blocks_inv a keys maps titles metas key meta bs :
-    ready a keys key -> plain bs ->
+    ready a keys key ->
     exists g', from_blocks (G a keys maps titles metas) key meta bs = Ok g' /\ graph_inv g'.
   Proof.
-    intros Hready Hplain.
-    destruct (build_note_inv a keys maps titles metas key meta bs Hready Hplain) as (g1 & H1 & Hinv & _).
+    intros Hready.
+    destruct (build_note_inv a keys maps titles metas key meta bs Hready) as (g1 & H1 & Hinv & _).
     unfold from_blocks. rewrite H1. cbn [bind]. eexists. split; [reflexivity|].
     unfold graph_inv. now rewrite refresh_title_arena, refresh_title_keys.
   Qed.
 
   (* one update keeps the invariant and does not panic *)
   Theorem update_key_inv g key meta bs :
-    graph_inv g -> plain bs ->
+    graph_inv g ->
     exists g', update_key g key meta bs = Ok g' /\ graph_inv g'.
   Proof.
-    intros Hinv Hplain. unfold update_key.
+    intros Hinv. unfold update_key.
     destruct (alookup key (gr_keys g)) as [root|] eqn:Hlook.
     - pose proof Hinv as [Hwf _]. apply wf_b_spec in Hwf as (Hok & Hkeys & _).
       destruct (proj1 (key_ok_spec _ (key, root)) (Hkeys _ (alookup_In _ _ _ Hlook))) as (n & Hn & Hk).
       cbn [fst snd] in Hn, Hk.
       destruct (delete_branch_wf _ root n key Hok Hn Hk) as (a' & Hdel & _).
-      rewrite Hdel. cbn [bind]. apply from_blocks_inv; [|exact Hplain].
+      rewrite Hdel. cbn [bind]. apply from_blocks_inv.
       now destruct (ready_deleted g key root a' Hinv Hlook Hdel).
-    - cbn [bind]. apply from_blocks_inv; [|exact Hplain]. now apply ready_fresh.
+    - cbn [bind]. apply from_blocks_inv. now apply ready_fresh.
   Qed.
 
   (* HEADLINE, in the form asked for; the distinctness of the keys of the key map is part of the
      invariant because wf_b alone is not inductive (update_key_wf_refuted) *)
   Theorem update_key_wf g key meta bs :
-    wf_b (gr_arena g) (gr_keys g) = true -> NoDup (map fst (gr_keys g)) -> plain bs ->
+    wf_b (gr_arena g) (gr_keys g) = true -> NoDup (map fst (gr_keys g)) ->
     exists g', update_key g key meta bs = Ok g' /\
                wf_b (gr_arena g') (gr_keys g') = true /\ NoDup (map fst (gr_keys g')).
   Proof.
-    intros Hwf Hnd Hplain.
-    destruct (update_key_inv g key meta bs (conj Hwf Hnd) Hplain) as (g' & H & Hwf' & Hnd'). eauto.
+    intros Hwf Hnd.
+    destruct (update_key_inv g key meta bs (conj Hwf Hnd)) as (g' & H & Hwf' & Hnd'). eauto.
   Qed.
 
   Lemma history_inv (ops : list (string * option string * list dblock)) :
-    Forall (fun op => plain (snd op)) ops ->
     forall g0, graph_inv g0 ->
     exists g, fold_left hist_step ops (Ok g0) = Ok g /\ graph_inv g.
   Proof.
-    induction 1 as [|[[k m] bs] ops Hop _ IH]; intros g0 Hinv; cbn [fold_left].
+    induction ops as [|[[k m] bs] ops IH]; intros g0 Hinv; cbn [fold_left].
     - eauto.
     - cbn [hist_step bind snd] in *.
-      destruct (update_key_inv g0 k m bs Hinv Hop) as (g1 & -> & Hinv1). now apply IH.
+      destruct (update_key_inv g0 k m bs Hinv) as (g1 & -> & Hinv1). now apply IH.
   Qed.
 
-  (* HEADLINE: every history of updates from the empty graph runs without panic and ends in a
+  (* HEADLINE: EVERY history of updates from the empty graph runs without panic and ends in a
      well-formed forest *)
   Theorem history_wf : forall (ops : list (string * option string * list dblock)),
-    Forall (fun op => Forall (fun b => plain_items b = true) (snd op)) ops ->
     exists g, fold_left (fun acc op => do g <- acc; let '(k, m, bs) := op in update_key g k m bs)
                         ops (Ok empty_graph) = Ok g
               /\ wf_b (gr_arena g) (gr_keys g) = true.
   Proof.
-    intros ops Hops.
-    destruct (history_inv ops Hops empty_graph) as (g & H & Hwf & _).
+    intros ops.
+    destruct (history_inv ops empty_graph) as (g & H & Hwf & _).
     - split; [reflexivity | apply NoDup_nil].
     - exists g. split; [exact H | exact Hwf].
   Qed.
 
-  (* Graph::import of plain notes with pairwise distinct keys *)
+  (* Graph::import of notes with pairwise distinct keys *)
   Definition note_key (n : string * option string * list dblock) : string :=
     key_from_file_name (fst (fst n)).
 
   Lemma import_fold_inv (notes : list (string * option string * list dblock)) :
-    Forall (fun n => plain (snd n)) notes ->
     NoDup (map note_key notes) ->
     forall g0, graph_inv g0 ->
     (forall n, In n notes -> alookup (note_key n) (gr_keys g0) = None) ->
@@ -1036,13 +1040,13 @@ Section WithBuilder.
                             build_note g (key_from_file_name name) meta bs) notes (Ok g0) = Ok g1 /\
                graph_inv g1.
   Proof.
-    induction 1 as [|[[name meta] bs] notes Hn _ IH]; intros Hnd g0 Hinv Hfresh; cbn [fold_left].
+    induction notes as [|[[name meta] bs] notes IH]; intros Hnd g0 Hinv Hfresh; cbn [fold_left].
     - eauto.
     - cbn [map] in Hnd. apply NoDup_cons_iff in Hnd as [Hni Hnd]. cbn [bind snd] in *.
       pose proof (Hfresh _ (or_introl eq_refl)) as Hnone. unfold note_key in Hnone. cbn [fst] in Hnone.
       destruct g0 as [a keys maps titles metas].
       destruct (build_note_inv a keys maps titles metas (key_from_file_name name) meta bs
-                  (ready_fresh _ _ Hinv Hnone) Hn) as (g1 & -> & Hinv1 & Hkeys1).
+                  (ready_fresh _ _ Hinv Hnone)) as (g1 & -> & Hinv1 & Hkeys1).
       apply IH; auto.
       intros n Hin. rewrite Hkeys1. cbn [gr_keys gr_arena] in *.
       rewrite alookup_ainsert_other; [apply Hfresh; now right|].
@@ -1052,12 +1056,11 @@ Section WithBuilder.
   Qed.
 
   Theorem import_wf (notes : list (string * option string * list dblock)) :
-    Forall (fun n => Forall (fun b => plain_items b = true) (snd n)) notes ->
     NoDup (map note_key notes) ->
     exists g, import notes = Ok g /\ wf_b (gr_arena g) (gr_keys g) = true /\ NoDup (map fst (gr_keys g)).
   Proof.
-    intros Hplain Hnd. unfold import.
-    destruct (import_fold_inv notes Hplain Hnd empty_graph) as (g1 & -> & Hinv1).
+    intros Hnd. unfold import.
+    destruct (import_fold_inv notes Hnd empty_graph) as (g1 & -> & Hinv1).
     - split; [reflexivity | apply NoDup_nil].
     - reflexivity.
     - cbn [bind]. eexists. split; [reflexivity|].
@@ -1067,16 +1070,14 @@ Section WithBuilder.
   (* HEADLINE: the same from an imported library *)
   Theorem history_from_import_wf :
     forall (notes ops : list (string * option string * list dblock)),
-    Forall (fun n => Forall (fun b => plain_items b = true) (snd n)) notes ->
     NoDup (map note_key notes) ->
-    Forall (fun op => Forall (fun b => plain_items b = true) (snd op)) ops ->
     exists g, fold_left (fun acc op => do g <- acc; let '(k, m, bs) := op in update_key g k m bs)
                         ops (import notes) = Ok g
               /\ wf_b (gr_arena g) (gr_keys g) = true.
   Proof.
-    intros notes ops Hnotes Hnd Hops.
-    destruct (import_wf notes Hnotes Hnd) as (g0 & -> & Hwf0 & Hnd0).
-    destruct (history_inv ops Hops g0 (conj Hwf0 Hnd0)) as (g & H & Hwf & _).
+    intros notes ops Hnd.
+    destruct (import_wf notes Hnd) as (g0 & -> & Hwf0 & Hnd0).
+    destruct (history_inv ops g0 (conj Hwf0 Hnd0)) as (g & H & Hwf & _).
     exists g. split; [exact H | exact Hwf].
   Qed.
 End WithBuilder.
@@ -1088,7 +1089,7 @@ Print Assumptions history_from_import_wf.
 (* ---------- the statements after the section, and non-vacuity ---------------------------------- *)
 
 Check update_key_wf :
-  (forall a key bs, arena_ok a = true -> Forall (fun b => plain_items b = true) bs ->
+  (forall a key bs, arena_ok a = true ->
      exists st, build_document a key bs = Ok st /\ arena_ok (b_arena st) = true /\
        firstn (length a) (b_arena st) = a /\
        (exists n, get (b_arena st) (length a) = Some n /\ g_kind n = KDocument key /\
@@ -1096,7 +1097,7 @@ Check update_key_wf :
        (forall id n, length a < id -> get (b_arena st) id = Some n ->
                      is_emptyk (g_kind n) = false /\ is_dock (g_kind n) = false)) ->
   forall g key meta bs,
-    wf_b (gr_arena g) (gr_keys g) = true -> NoDup (map fst (gr_keys g)) -> plain bs ->
+    wf_b (gr_arena g) (gr_keys g) = true -> NoDup (map fst (gr_keys g)) ->
     exists g', update_key g key meta bs = Ok g' /\
                wf_b (gr_arena g') (gr_keys g') = true /\ NoDup (map fst (gr_keys g')).
 
@@ -1108,9 +1109,6 @@ Definition ex_q := DQuote (0, 3) [DHeader (0, 1) 2 [Str "Q"]; ex_p; ex_l].
 Definition ex_ops : list (string * option string * list dblock) :=
   [("a", None, [ex_p; ex_h; ex_p; ex_l; DHeader (9, 10) 1 [Str "U"]; ex_q]); ("d/b", Some "m", [ex_q; ex_l]);
    ("a", None, [ex_p]); ("d/b", None, []); ("c", None, [ex_h; ex_l]); ("a", Some "x", [ex_h; ex_l; ex_q])].
-
-Example ex_ops_plain : Forall (fun op => Forall (fun b => plain_items b = true) (snd op)) ex_ops.
-Proof. repeat constructor. Qed.
 
 (* a history with re-updates of nested notes: the model run ends well formed, the live nodes are
    exactly the three trees, and 50 slots are tombstones of removed versions *)
